@@ -3,7 +3,7 @@
 # parallel (ONSAGER_REPO), append to seeded/RESULTS.tsv.  /repo itself is never modified.
 cd /verif
 HEAD=$(git -C /repo rev-parse --short HEAD)
-ls seeded | grep -v RESULTS > /tmp/seedlist.txt
+ls seeded | grep -v RESULTS | while read s; do grep -q "\"retired\": true" seeded/$s/meta.json || echo $s; done > /tmp/seedlist.txt
 n=0
 for w in dev dev2 dev3; do
   WT=/tmp/wt/$w
